@@ -18,9 +18,11 @@ def _junk(rng, mode, live_sids, dead_sids):
     """One hostile item -> (frame spec, offending stream id or None if connection-level/undecodable)."""
     k = _pick(rng, [(3, 'random'), (2, 'short'), (2, 'unknown_type'), (3, 'truncated'), (3, 'unknown_stream'),
                     (2, 'finished_stream'), (2, 'orphan_fragment'), (2, 'out_of_place'), (1, 'ignore_garbage'),
-                    (1, 'push_on_stream'), (2, 'empty'), (3, 'reserved_bits')])
+                    (1, 'push_on_stream'), (2, 'empty'), (3, 'reserved_bits'), (2 if mode == 'ws' else 0, 'ws_text')])
     if k == 'empty':
         return {'raw': ''}, None
+    if k == 'ws_text':
+        return {'text': rng.choice(['hello', '', '{"op": "ping"}', 'x' * 300, '\u00e9\u00e8'])}, None
     if k == 'random':
         return {'raw': _rb(rng, rng.randint(1, 60)).hex()}, None
     if k == 'short':
@@ -146,6 +148,8 @@ def gen_hostile(seed, opts=None):
             step = {'at': t * MS}
             if 'frame' in item:
                 step['frame'] = item['frame']
+            elif 'text' in item:
+                step['frame'] = {'text': item['text']}
             else:
                 step['frame'] = {'raw': item['raw']}
             script.append(step)
@@ -327,10 +331,36 @@ def oracle_c12_buggify(an):
 # C13 (second clause): an incoming request that reuses an id still active on the receiver
 # ---------------------------------------------------------------------------------------------
 
+def _gen_id_reuse_own(seed, rng, role, framing):
+    """The peer sends a request whose id is one the real endpoint itself has opened (the endpoint's parity) and that is
+    still pending: rejected, and the endpoint's own request is answered normally afterwards."""
+    sid = 1 if role == 'client' else 2
+    ia0 = {'id': 0, 'kind': 'rr', 'by': role, 'at': 0.004, 'req': {'dlen': 20, 'mlen': None}}
+    dup_kind = _pick(rng, [(2, 'rr'), (1, 'stream'), (1, 'channel'), (1, 'fnf')])
+    ia1 = {'id': 1, 'kind': dup_kind, 'by': 'peer', 'sid': sid, 'resp': {'mode': 'now', 'dlen': 10, 'mlen': None}}
+    if dup_kind in ('stream', 'channel'):
+        ia1['resp'] = {'src': 'manual', 'count': 2, 'lens': [[8, None]], 'end': 'separate'}
+    t_type = {'rr': 'REQUEST_RESPONSE', 'stream': 'REQUEST_STREAM', 'channel': 'REQUEST_CHANNEL', 'fnf': 'REQUEST_FNF'}
+    script = []
+    if role == 'server':
+        script.append({'at': 0.0, 'frame': {'t': 'SETUP', 'keepalive_ms': 10_000_000, 'lifetime_ms': 20_000_000}})
+    script.append({'at': round(0.010 + rng.choice([0, 0.001, 0.02]), 4),
+                   'frame': {'t': t_type[dup_kind], 'sid': sid, 'n': 5, 'data': app.content(1, 'q', 0, 'D', 20).hex()}})
+    # the peer answers the endpoint's own request afterwards
+    script.append({'at': 0.1, 'frame': {'t': 'PAYLOAD', 'sid': sid, 'data': app.content(0, 'r', 0, 'D', 24).hex(), 'next': True, 'complete': True}})
+    return {'exec': 'peer', 'profile': 'id-reuse', 'seed': seed, 'role': role, 'framing': framing, 'loop': {'eps': 0.0},
+            'endpoint': {'keepalive_ms': 10_000_000}, 'auto': {'keepalive': 'echo'},
+            'link': {'c2s': {'latency': 0.001, 'seed': 1}, 's2c': {'latency': 0.001, 'seed': 2}},
+            'script': script, 'interactions': [ia0, ia1], 'horizon': 1.0, 'nontrivial': True,
+            'reuse': {'sid': sid, 'first_kind': 'rr', 'dup_kind': dup_kind, 'count': 1, 'n0': 1, 'own_parity': True}}
+
+
 def gen_id_reuse(seed, opts=None):
     rng = random.Random(seed ^ 0x1D2E)
     role = _pick(rng, [(2, 'server'), (1, 'client')])
     framing = _pick(rng, [(2, 'tcp'), (1, 'ws')])
+    if rng.random() < 0.3:
+        return _gen_id_reuse_own(seed, rng, role, framing)
     sid = (1 if role == 'server' else 2) + 2 * rng.randint(0, 5)
     first_kind = _pick(rng, [(3, 'stream'), (2, 'channel'), (1, 'rr')])
     count = rng.randint(2, 6)
@@ -383,6 +413,13 @@ def oracle_c13_reuse(world):
     rejected = [e for e in emitted if e['f']['type'] == 'ERROR' and e['f'].get('code_name') == 'REJECTED']
     if not rejected:
         V('duplicate_id_not_rejected', 'no ERROR[REJECTED] for a request re-using the active id %d' % sid, None, **facts)
+    if ru.get('own_parity'):
+        # the endpoint's own pending request is answered as if nothing had happened
+        f = [e for e in h if e['k'] == 'fut' and e.get('iid') == 0 and e.get('role') == 'requester' and e['seq'] < mark]
+        if not f or f[0]['state'] != 'result' or f[0].get('data') != app.nb(app.content(0, 'r', 0, 'D', 24)):
+            V('original_stream_replaced', 'the endpoint\'s own request on id %d did not get its response after a peer request re-used the id (%s)'
+              % (sid, f[0]['state'] if f else 'still pending'), None, own_parity=True, **facts)
+        return out
     # the original stream keeps working
     if ru['first_kind'] == 'rr':
         exp = [app.nb(app.content(0, 'r', 0, 'D', 20))]
